@@ -1,0 +1,9 @@
+//go:build !verif
+
+package soyhtml
+
+import "github.com/robfig/soy/ast"
+
+func verifUnbound(k string)   {}
+func verifWalk(node ast.Node) {}
+func verifWork()              {}
